@@ -283,13 +283,16 @@ func init() {
 			{Pkg: walletPkg, Fn: "ZzC09B1All", Tiers: "qt", Sched: true, Reach: []string{"c09-end"}, Bound: "2 goroutines, one call each from {NewAddress, NewChangeAddress, CurrentAddress} on the same account, every interleaving of their synchronisation operations with at most 1 preemptive context switch (the database model yields between releasing the writer lock and running the commit handlers)"},
 			{Pkg: walletPkg, Fn: "ZzC09B2", Tiers: "qt", Sched: true, Reach: []string{"c09-end"}, Bound: "NewAddress/NewChangeAddress pairs, at most 2 preemptions"},
 			{Pkg: walletPkg, Fn: "ZzC09B2All", Tiers: "t", Sched: true, Reach: []string{"c09-end"}, Bound: "all 9 pairs, at most 2 preemptions"},
+			{Pkg: walletPkg, Fn: "ZzC09B1Five", Tiers: "qt", Sched: true, Reach: []string{"c09-end", "spending-caller"}, Bound: "all 25 pairs from {NewAddress, NewChangeAddress, CurrentAddress, txToOutputs needing change, FundPsbt with a supplied input needing change} (funded watching-only wallet for the spending callers), at most 1 preemption"},
+			{Pkg: walletPkg, Fn: "ZzC09B2Five", Tiers: "t", Sched: true, Reach: []string{"c09-end", "spending-caller"}, Bound: "all 25 pairs, at most 2 preemptions"},
 		},
 		Assume: append([]string{
 			"context switches only at synchronisation operations (mutexes, channel operations, the explicit yield in memdb.Commit); data-race freedom is assumed, not checked",
 			"schedule-dependent counterexamples are confirmed natively only if the Go scheduler happens to reproduce them; otherwise by deterministic re-execution in the executor",
-			"three of the six newAddrMtx call sites are driven (NewAddress, NewChangeAddress, CurrentAddress); txToOutputs, FundPsbt and ImportAccountDryRun are not",
+			"five of the six newAddrMtx call sites are driven (NewAddress, NewChangeAddress, CurrentAddress, txToOutputs, FundPsbt with supplied inputs); ImportAccountDryRun is not (it derives on a fresh account inside a transaction that is always rolled back)",
+			"the spending callers run on a wallet made watching-only, so the authored transactions are not signed",
 		}, walletAssume...),
-		Outside: "more than 2 concurrent callers, more than 2 preemptions, the three entry points not driven, real bbolt locking",
+		Outside: "more than 2 concurrent callers, more than 2 preemptions, ImportAccountDryRun, recovery's unlocked ExtendExternal/InternalAddresses, real bbolt locking",
 	})
 	reg(&propDef{
 		ID: "C11",
